@@ -27,7 +27,7 @@ SPEC = {
         # one and the same transmission schedule to one outcome (borrowed from C16, judged by C16_check.rep_judge)
         _borrow('C16', 'C16_rep_exec_roles', 'rep_roles_judge'),
     ],
-    'rule': 'each case = one (previous outcome, query, ordered attributed observation list, configuration); commit: DON sizes 4/7/10, '
+    'rule': 'half of the worlds / cases use production-sized chain selectors (more than 2^63 apart or cyclic modulo 2^64, so that a subtracting or truncating comparator is not a total order); each case = one (previous outcome, query, ordered attributed observation list, configuration); commit: DON sizes 4/7/10, '
             '2-5 source chains, every merkle-root state (select / build / build-retry / wait), per-chain vote patterns '
             'agree / exact 2f+1 / 2f / two values both at threshold / missing, equal timestamps, 1-4 tokens, fee data; execute: '
             'the three plugin states, honest agreement, honest disagreement on executed sets (two commit data for one report both at f+1), '
